@@ -156,6 +156,25 @@ def vm_list():
         out.append(f'peekable {a_} {b_} {c_} {d_} {n_}')
         if len(v) >= 2:
             c = vec(v); P(vm, '<impl [T]>::swap', slc(c), 0, len(v) - 1); out.append('swap ' + rdbg(vm, c.v))
+    lists = [[], [1], [1, 1, 2, 2, 1], [1, 3, 5], [2, 2, 4, 9]]
+    L = lambda xs: std_iter.It('list', list(xs), 0)
+    ge = HostFn(lambda vm_, x, y: _d2(vm_, x) >= _d2(vm_, y))
+    def _d2(vm_, x):
+        while isinstance(x, Ref): x = vm_.ref_get(x)
+        return x
+    def lst(it): return '[' + ', '.join(rdbg(vm, x) for x in std_iter.drain(vm, it)) + ']'
+    for a in lists:
+        for b in lists:
+            out.append('merge ' + lst(T(vm, '*', 'Itertools', 'merge', L(a), L(b))))
+            out.append('merge_by ' + lst(T(vm, '*', 'Itertools', 'merge_by', L(a), L(b), ge)))
+            out.append('interleave ' + lst(T(vm, '*', 'Itertools', 'interleave', L(a), L(b))))
+        out.append('it_dedup ' + lst(T(vm, '*', 'Itertools', 'dedup', L(a))))
+        out.append('unique ' + lst(T(vm, '*', 'Itertools', 'unique', L(a))))
+        out.append('intersperse ' + lst(T(vm, '*', 'Itertools', 'intersperse', L(a), 0)))
+        out.append('tuple_windows ' + lst(T(vm, '*', 'Itertools', 'tuple_windows', L(a))))
+        out.append('all_equal ' + rdbg(vm, T(vm, '*', 'Itertools', 'all_equal', L(a))))
+        out.append('sorted ' + lst(T(vm, '*', 'Itertools', 'sorted', L(a[::-1]))))
+        out.append('join ' + rdbg(vm, T(vm, '*', 'Itertools', 'join', L([bstr_from_py(f's{x}') for x in a]), bstr_from_py('-'))))
     r, e = std.ok(3), std.err(4)
     inc = HostFn(lambda vm_, x: x + 1); is3 = HostFn(lambda vm_, x: x == 3); is5 = HostFn(lambda vm_, x: x == 5)
     out.append('result ' + ' '.join(rdbg(vm, x) for x in [P(vm, 'Result::and', r, e), P(vm, 'Result::and', e, r), P(vm, 'Result::or', r, e), P(vm, 'Result::or', e, r),
